@@ -51,9 +51,11 @@ type BridgeCfg struct {
 	ExecFeePaid int64   // gas cost (wei) the relayer reports for an executed batch; 0 = 3
 	ParamsMod func(p *mhubtypes.Params) // applied to the genesis params last
 	ParamChanges [][2]string // governance parameter changes (key, JSON value) of the mhub2 subspace offered as op Param(i)
+	DepUnlisted bool // deposits may name a destination chain on which the token is not listed (the deposit then fails as a whole)
 	PayoutsMayFail bool // the configuration gives a reason for an executed batch's payouts to fail (token row gone, no Minter row)
 	GenesisMod func(g *hub.Genesis) // applied to the genesis last (a hand-written genesis file)
 	GenesisSeq map[string]uint64    // outgoing sequence counters of the chain the genesis file was taken from
+	Repoint  []int // token rows whose external id a governance proposal may change (op Repoint; ethereum / bsc rows)
 	Relist   []int // token rows a governance TokenInfosChangeProposal may remove from / put back on the list (op Relist)
 }
 
@@ -150,6 +152,12 @@ func (b *Bridge) tokenByExt(chain, ext string) *TokenRow {
 	for i := range b.Cfg.Tokens {
 		if b.Cfg.Tokens[i].Chain == chain && b.Cfg.Tokens[i].ExtID == ext {
 			return &b.Cfg.Tokens[i]
+		}
+	}
+	// the external id a Repoint proposal gives a row (same token, same decimals, new contract)
+	for i := range b.Cfg.Tokens {
+		if t := &b.Cfg.Tokens[i]; t.Chain == chain && strings.EqualFold(hub.HexAddr("migrated-"+t.Chain+"|"+t.Denom), ext) {
+			return t
 		}
 	}
 	return nil
@@ -534,7 +542,7 @@ func (b *Bridge) Ops(s *HState) []engine.Op {
 							if dest == ch {
 								continue
 							}
-							if dest != "hub" && b.token(dest, d) == nil {
+							if dest != "hub" && b.token(dest, d) == nil && !c.DepUnlisted {
 								continue
 							}
 							ops = append(ops, engine.OpN("Deposit", ch, d, dest, ai, fi))
@@ -612,6 +620,11 @@ func (b *Bridge) Ops(s *HState) []engine.Op {
 	if on("Relist") {
 		for _, row := range c.Relist {
 			ops = append(ops, engine.OpN("Relist", row))
+		}
+	}
+	if on("Repoint") {
+		for _, row := range c.Repoint {
+			ops = append(ops, engine.OpN("Repoint", row))
 		}
 	}
 	if on("ColdStorage") {
@@ -808,18 +821,26 @@ func (b *Bridge) Do(in *hub.Instance, gg Ghost, op engine.Op, st *engine.Step) {
 		if err == nil {
 			st.Count("parameter_changes", 1)
 		}
-	case "Relist":
-		// governance replaces the token list: the row is removed if listed, put back if removed
+	case "Relist", "Repoint":
+		// governance replaces the token list. Relist: the row is removed if listed, put back if removed. Repoint: the row
+		// keeps its token id and gets another external id (the token migrated to a new contract) - and back
 		row := b.Cfg.Tokens[op.I[0]]
 		key := row.Chain + "|" + row.Denom
+		if op.Kind == "Repoint" {
+			key = "repoint|" + key
+		}
 		want := !g.Delisted[key]
 		var infos []*mhubtypes.TokenInfo
 		for i, t := range b.Cfg.Tokens {
 			k := t.Chain + "|" + t.Denom
-			if (k == key && want) || (k != key && g.Delisted[k]) {
+			if op.Kind == "Relist" && ((k == key && want) || (k != key && g.Delisted[k])) || op.Kind == "Repoint" && g.Delisted[k] {
 				continue
 			}
-			infos = append(infos, &mhubtypes.TokenInfo{Id: uint64(i + 1), Denom: t.Denom, ChainId: t.Chain, ExternalTokenId: t.ExtID,
+			ext := t.ExtID
+			if rk := "repoint|" + k; (rk == key && want) || (rk != key && g.Delisted[rk]) {
+				ext = hub.HexAddr("migrated-" + k)
+			}
+			infos = append(infos, &mhubtypes.TokenInfo{Id: uint64(i + 1), Denom: t.Denom, ChainId: t.Chain, ExternalTokenId: ext,
 				ExternalDecimals: t.Dec, Commission: sdk.NewDec(t.CommissionBP).QuoInt64(10000)})
 		}
 		err := in.Proposal(&mhubtypes.TokenInfosChangeProposal{NewInfos: &mhubtypes.TokenInfos{TokenInfos: infos}})
@@ -1309,7 +1330,17 @@ func init() {
 		fh.DepDests = []string{"hub"}
 		fh.DepFees = []int64{0}
 		fh.Seeds = [][]engine.Op{append(append([]engine.Op{}, seedObserved...), engine.OpN("Send", "ethereum", "hub", 0, 0, 0), engine.OpN("ReqBatch", "ethereum", "hub"))}
+		// deposits bound for a chain on which the token is not listed (hub has no bsc row here)
+		ul := cfg
+		ul.Tokens = append(append([]TokenRow{}, cfg.Tokens[:1]...), cfg.Tokens[2:]...)
+		ul.DepUnlisted = true
+		ul.DepChains = []string{"ethereum", "minter"}
+		ul.DepDests = []string{"bsc", "hub"}
+		ul.Ops = opsSet("Next", "Deposit", "Send", "Cancel")
+		ul.SendChains = []string{"ethereum"}
+		ul.Seeds = [][]engine.Op{{}}
 		return append([]MultiCase{{Name: "oracle prices present", Spec: NewBridge(cfg), Cfg: ec}, {Name: "no oracle prices yet", Spec: NewBridge(np), Cfg: ec2},
+			{Name: "deposits bound for a chain on which the token is not listed", Spec: NewBridge(ul), Cfg: ec2},
 			{Name: "a minority claims a far-ahead external height while a batch is pending", Spec: NewBridge(fh), Cfg: ec2},
 			{Name: "token taken off the originating chain's list while a transfer from there is pending", Spec: NewBridge(dl), Cfg: ec2},
 			{Name: "24-decimals token, fee-paying transfers from Minter, fee surplus at execution", Spec: NewBridge(hd), Cfg: ec2}}, execCases(cfg, ec2, "NextTimeout", "ReqBatch", "Cancel")...), bridgeAssumptions(cfg)
@@ -1388,8 +1419,36 @@ func init() {
 		sh.SendChains = []string{"ethereum"}
 		sh.SendDenoms = []string{"hub"}
 		sh.DepChains = []string{"ethereum"}
+		// a chain started from a genesis file that lists two pending ethereum batches of one token, the newer one first
+		// (the module's own walkers are reverse iterators); InitGenesis gives them new sequence numbers in file order
+		gi := cfg
+		gi.Ops = opsSet("Next", "Exec", "Deposit", "ExtAdvance")
+		gi.SendChains = []string{"ethereum"}
+		gi.SendDenoms = []string{"hub"}
+		gi.DepChains = []string{"ethereum"}
+		gi.Seeds = [][]engine.Op{{engine.OpN("Deposit", "ethereum", "hub", "hub", 0, 0), engine.OpN("Next", 5)}}
+		gi.GenesisSeq = map[string]uint64{"ethereum": 5}
+		gi.GenesisMod = func(g *hub.Genesis) {
+			for _, es := range g.Hub.ExternalStates {
+				if es.ChainId != "ethereum" {
+					continue
+				}
+				es.Sequence, es.LastOutgoingBatchTxNonce = 5, 2
+				for _, n := range []uint64{2, 1} {
+					ste := &mhubtypes.SendToExternal{Id: n, Sender: hub.User("u1").String(), ChainId: "ethereum", ExternalRecipient: hub.HexAddr("imp"),
+						Token: mhubtypes.ExternalToken{Amount: sdk.NewInt(990), ExternalTokenId: EthHub, TokenId: 1}, Fee: mhubtypes.ExternalToken{Amount: sdk.NewInt(7), ExternalTokenId: EthHub, TokenId: 1},
+						ValCommission: mhubtypes.ExternalToken{Amount: sdk.NewInt(10), ExternalTokenId: EthHub, TokenId: 1}, TxHash: fmt.Sprintf("IMPORTED%d", n), RefundAddress: hub.User("u1").String(), RefundChainId: "hub", CreatedAt: 1}
+					a, err := mhubtypes.PackOutgoingTx(&mhubtypes.BatchTx{BatchNonce: n, ExternalTokenId: EthHub, Transactions: []*mhubtypes.SendToExternal{ste}, Height: 1, Timeout: 50_000_000, Sequence: 3 + n})
+					if err != nil {
+						panic(err)
+					}
+					es.OutgoingTxs = append(es.OutgoingTxs, a)
+				}
+			}
+		}
 		const weth, ust = "0xC02aaA39b223FE8D0A0e5C4F27eAD9083C756Cc2", "0xa47c8bf37f92aBed4A126BDA807A7b7498661acD"
-		return append(append([]MultiCase{{Name: "from observed heights", Spec: NewBridge(a), Cfg: ec}}, execCases(cfg, ecb)...), MultiCase{Name: "from two pending batches of different tokens on ethereum", Spec: NewBridge(bb), Cfg: ecb},
+		return append(append([]MultiCase{{Name: "from observed heights", Spec: NewBridge(a), Cfg: ec},
+			{Name: "started from a genesis file with two pending ethereum batches of one token, newest first", Spec: NewBridge(gi), Cfg: ecb}}, execCases(cfg, ecb)...), MultiCase{Name: "from two pending batches of different tokens on ethereum", Spec: NewBridge(bb), Cfg: ecb},
 			MultiCase{Name: "from two batches of one token whose timeouts are not monotone", Spec: NewBridge(cc), Cfg: ecb},
 			MultiCase{Name: "mixed-case contract ids (0xC02a.. = hub, 0xa47c.. = eth), three pending batches", Spec: NewBridge(mk(weth, ust)), Cfg: ecb},
 			MultiCase{Name: "mixed-case contract ids (0xa47c.. = hub, 0xC02a.. = eth), three pending batches", Spec: NewBridge(mk(ust, weth)), Cfg: ecb},
@@ -1583,7 +1642,37 @@ func init() {
 			dl.Seeds = append(dl.Seeds, two, append([]engine.Op{engine.OpN("Next", 5)}, two...))
 			ecd := ec
 			ecd.Deadline = ec.Deadline / 2
+			// the token migrates to a new contract (same token id, new external id) while a transfer towards the old
+			// contract waits in the pool: a 6-decimals token on ethereum
+			rp := cfg
+			rp.Repoint = []int{0}
+			rp.Users = 1
+			rp.Tokens = stdTokens(6)
+			rp.Ops = opsSet("Next", "NextTimeout", "Send", "Cancel", "Repoint")
+			rp.SendChains = []string{"ethereum"}
+			rp.SendDenoms = []string{"hub"}
+			rp.Fees = rp.Fees[:1]
+			rp.Seeds = [][]engine.Op{{}, {engine.OpN("Next", 5)}}
+			// a token table whose rows of one denom share one token id (nothing makes ids unique; the listing of a pool
+			// entry is the one of its chain and external id): 6 decimals on ethereum (the first row), 18 on bsc and Minter
+			du := cfg
+			du.Users = 1
+			du.Tokens = stdTokens(6)
+			du.Ops = opsSet("Next", "NextTimeout", "Send", "Cancel")
+			du.SendChains = []string{"bsc", "minter", "ethereum"}
+			du.SendDenoms = []string{"hub"}
+			du.Fees = du.Fees[:1]
+			du.Seeds = [][]engine.Op{{}, {engine.OpN("Next", 5)}}
+			du.GenesisMod = func(g *hub.Genesis) {
+				for _, t := range g.Hub.TokenInfos.TokenInfos {
+					if t.Denom == "hub" {
+						t.Id = 1
+					}
+				}
+			}
 			cases := []MultiCase{{Name: "bridge histories", Spec: NewBridge(cfg), Cfg: ec},
+				{Name: "token migrated to a new contract while a transfer towards the old one is pending", Spec: NewBridge(rp), Cfg: ec},
+				{Name: "the listings of one denom share one token id (6 / 18 / 18 decimals)", Spec: NewBridge(du), Cfg: ec},
 				{Name: "token taken off the originating chain's list while a transfer from there is pending", Spec: NewBridge(dl), Cfg: ecd}}
 			if prop == "C04" {
 				cases = append(cases, execCases(cfg, ecd, "NextTimeout", "ReqBatch")...)
